@@ -69,16 +69,16 @@ class ScriptedWriter(pipefake.FakeWriter):
 
 
 def parse_reads(ans):
-    """driver `read` answer -> [(consumed, end_caused, lost)] per read() call"""
+    """driver `read` answer -> [(consumed, end_caused, lost, delivered)] per read() call"""
     out = []
     for part in ans.split(";"):
         w = part.split(" ")
         if w[0] == "E":
-            out.append((int(w[2]), w[1] in END_CAUSED, False))
+            out.append((int(w[2]), w[1] in END_CAUSED, False, False))
         elif w[0] == "L":
-            out.append((int(w[1]), True, True))
+            out.append((int(w[1]), True, True, False))
         else:
-            out.append((int(w[-1]), False, False))
+            out.append((int(w[-1]), False, False, w[0] == "D"))
     return out
 
 
@@ -161,7 +161,7 @@ def _run_impl(stream, mode, script, reads):
         settle_write()
         alive = snap()
         pos = 0
-        for k, (n, end_caused, _lost) in enumerate(reads):
+        for k, (n, end_caused, _lost, _dlv) in enumerate(reads):
             if not alive:
                 break
             w.cycle = k + 1
@@ -236,6 +236,23 @@ def judge(case, snaps, reads):
     sent_ids = [i for i, _ in snaps[-1]["sent"]] if snaps else []
     if sent_ids != order[:len(sent_ids)] and sorted(sent_ids) == sorted(order[:len(sent_ids)]):
         bad.append("one_write_per_cycle: frames not sent in the order they were queued")
+    # enqueued_exactly_delivered: what is on the read queue at quiescent point k (parked in read k, its write phase done)
+    # is what the first k reads delivered -- nothing is dropped between the reader and the queue, however many pile up.
+    # (at the last point after end of stream one more read may have been made; a run ended by a write fault made fewer)
+    dl = [r[3] for r in reads]
+    if not any(c["wr"] != "ok" or c["disc"] for c in script):
+        for k, o in enumerate(snaps):
+            lo = sum(dl[:k])
+            hi = sum(dl[:k + 2]) if k == len(snaps) - 1 else lo
+            if not (lo <= o["enq"] <= hi):
+                bad.append(f"enqueued_exactly_delivered: {o['enq']} frames on the read queue after {k} reads that delivered {lo}")
+                break
+    # the reader's timeout bounds every wait, also in the middle of a frame: after READER_TIMEOUT of silence the loop
+    # has announced the loss (stops_only_on_loss / readTimeout)
+    if case["mode"] == "s" and snaps and snaps[-1]["run"] and not any(c["wr"] != "ok" or c["disc"] for c in script) \
+            and len(snaps) == 1 + next((k for k, r in enumerate(reads) if r[1]), len(reads)) + 1:
+        bad.append("reader timeout: the loop is still waiting after READER_TIMEOUT of silence"
+                   + (" in the middle of a frame" if any(r[1] and not r[2] for r in reads) else ""))
     # producer_continues: the loop may only have ended for a scripted loss / disconnect / end of input
     for k, o in enumerate(snaps):
         if not o["run"]:
@@ -329,8 +346,20 @@ def rand_stream(rng):
     return s
 
 
+def long_stream(rng, n):
+    """n small deliverable frames back to back (more than any plausible bound on pending frames)"""
+    return b"".join(fg.mk(rng.choice([25, 64, 48, 186]), bytes(rng.randrange(48, 58) for _ in range(rng.randint(0, 4))),
+                          rcpt=rng.choice([86, 0]), sender=rng.choice([69, 69, 81])) for _ in range(n))
+
+
 def gen_cases(rng, n, streams=None):
     cases = []
+    for k in (40, 150):       # nothing is dropped between the reader and the read queue, however many frames pile up
+        cases.append(dict(stream=long_stream(rng, k).hex(), mode="e", script=[dict(puts=[1, 2], disc=False, wr="ok")], label=f"pile-up:{k}"))
+    for _ in range(3):        # the controller goes silent in the middle of a frame body
+        fr = fg.mk(186, b"\x04" + bytes(rng.randrange(48, 58) for _ in range(rng.randint(4, 30))))
+        cut = rng.randint(8, len(fr) - 1)
+        cases.append(dict(stream=(fg.mk(25) + fr[:cut]).hex(), mode="s", script=[], label="stall-in-body"))
     for i in range(n):
         s = rng.choice(streams) if streams and rng.random() < 0.7 else rand_stream(rng)
         cycles = s.count(b"\x68") + 1
@@ -359,3 +388,87 @@ def run_section(res, rng, n, prop, streams=None):
 
 def replay_case(res, inp, prop):
     evaluate(res, [dict(stream=inp["stream"], mode=inp["mode"], script=inp["script"], label=inp.get("label", "replay"))], prop)
+
+
+# ------------------------------------------------------------------ the whole connection after noise
+
+def run_pipeline(stream, cuts, text, consumers=3):
+    """a default AsyncProtocol (producer + consumers) fed with `stream`; -> observation of what reached the ecoMAX device"""
+    got = []
+    with pipefake.Driven() as loop:
+        proto = AsyncProtocol(consumers_count=consumers)
+
+        async def on_device(dev):
+            async def on_password(value):
+                got.append(value)
+            dev.subscribe("password", on_password)
+
+        proto.subscribe("ecomax", on_device)
+        sr = asyncio.StreamReader()
+        w = pipefake.FakeWriter()
+        loop.call_soon(proto.connection_established, sr, w)
+        loop.settle()
+        prev = 0
+        for c in list(cuts) + [len(stream)]:
+            if c > prev:
+                sr.feed_data(stream[prev:c])
+                prev = c
+                loop.settle()
+        prod = [t for t in proto.tasks if t.get_name() == "frame_producer_task"]
+        obs = dict(delivered=sum(1 for v in got if v == text),
+                   consumers_alive=sum(1 for t in proto.tasks if t.get_name().startswith("frame_consumer") and not t.done()),
+                   unfinished=proto._queues.read._unfinished_tasks, queued=proto._queues.read.qsize(),
+                   producer_alive=bool(prod) and not prod[0].done(), connected=proto.connected.is_set())
+    return obs
+
+
+def pipeline_cases(rng, n, noise_fn=None):
+    """noise that contains 0..6 checksum-valid frames from known addresses that are no controllers (broadcast 0x00, the
+    library's own 0x56: echoes / strays), followed by a run of one valid ecoMAX frame"""
+    cases = []
+    for i in range(n):
+        text = b"%04d" % rng.randrange(10000)
+        fr = fg.mk(186, b"\x04" + text, rcpt=86, sender=69)
+        if 0x68 in fr[1:]:
+            continue
+        strays = rng.choice([0, 1, 2, 3, 3, 4, 4, 5, 6])
+        parts = []
+        for _ in range(strays):
+            parts.append(noise_fn(rng) if noise_fn else bytes(rng.randrange(256) for _ in range(rng.randint(0, 20))))
+            parts.append(fg.mk(rng.choice([48, 64, 186, 25, 53, 177]), bytes(rng.randrange(256) for _ in range(rng.randint(0, 6))),
+                               rcpt=rng.choice([86, 0]), sender=rng.choice([0, 86])))
+        parts.append(noise_fn(rng) if noise_fn else bytes(rng.randrange(256) for _ in range(rng.randint(0, 40))))
+        copies = (1000 + 3 * len(fr)) // len(fr) + rng.randint(2, 6)
+        stream = b"".join(parts) + fr * copies
+        k = rng.randint(0, 3)
+        cuts = sorted(rng.sample(range(1, len(stream)), k)) if k and len(stream) > 2 else []
+        cases.append(dict(stream=stream.hex(), frame=fr.hex(), text=text.decode(), cuts=cuts, strays=strays, label="pipeline-after-noise"))
+    return cases
+
+
+def evaluate_pipeline(res, cases, prop, via="pipeline"):
+    """the reader model says which frames the reader hands out; the pool machine (C09: never_stalls,
+    delivered_exactly_once, no_consumer_dies) says every one of them that can be handled reaches its device, once,
+    whatever else was received: the copies of the run's frame the reader model delivers must all arrive at the ecoMAX
+    device, with every consumer alive and the read queue balanced"""
+    if not cases:
+        return
+    answers = driver_batch("read " + c["stream"] for c in cases)
+    for c, ans in zip(cases, answers):
+        fr = bytes.fromhex(c["frame"])
+        want_word = f"D {fr[7]} {fr[3]} {fr[4]} {fr[5]} {fr[6]} {hexs(fr[8:-2])} "
+        want = sum(1 for part in ans.split(";") if part.startswith(want_word))
+        obs = run_pipeline(bytes.fromhex(c["stream"]), c["cuts"], c["text"])
+        inp = dict(via=via, stream=c["stream"], frame=c["frame"], text=c["text"], cuts=c["cuts"], strays=c["strays"], label=c["label"])
+        res.count(f"{via}:runs")
+        res.count(f"{via}:stray-frames:{min(c['strays'], 3)}{'+' if c['strays'] >= 3 else ''}")
+        exp = dict(delivered=want, consumers_alive=3, unfinished=0, queued=0, producer_alive=True, connected=True)
+        if obs != exp:
+            res.fail("spec", inp, exp, obs,
+                     f"{prop}: after the noise the run's frames did not all reach the device (or a consumer / the producer died, "
+                     "or the read queue is not balanced)")
+
+
+def replay_pipeline(res, inp, prop):
+    evaluate_pipeline(res, [dict(stream=inp["stream"], frame=inp["frame"], text=inp["text"], cuts=inp.get("cuts", []),
+                                 strays=inp.get("strays", 0), label=inp.get("label", "replay"))], prop)
